@@ -79,6 +79,7 @@ type GCase struct {
 	// observed
 	OutErr  bool     `json:"out_err"`
 	OutJSON string   `json:"out_json,omitempty"`
+	NReports int     `json:"n_reports"`
 	AltOuts []string `json:"alt_outs,omitempty"` // other distinct outcomes seen among the evaluations (map order!)
 	Det     bool   `json:"det"`
 	Evals   int    `json:"evals"`
